@@ -260,6 +260,16 @@ static int setup_socket(int sock) {
   return setsockopt(sock, SOL_SOCKET, SO_REUSEADDR, &on, sizeof(on));
 }
 
+#ifdef SOCK_NONBLOCK
+// a socket created with SOCK_NONBLOCK is in non-blocking mode as far as the
+// caller is concerned, exactly as if O_NONBLOCK had been set with fcntl()
+static void fiber_io_created_nonblocking(int sock) {
+  if (!thread_locked && fd_info && sock >= 0 && (rlim_t)sock < max_fd) {
+    atomic_fetch_and(&fd_info[sock].flags_, ~IO_FLAG_BLOCKING);
+  }
+}
+#endif
+
 int socket(int domain, int type, int protocol) {
   if (!fibershim_socket) {
     fibershim_socket = (socketFnType)dlsym(RTLD_NEXT, "socket");
@@ -274,6 +284,11 @@ int socket(int domain, int type, int protocol) {
     close(sock);
     return -1;
   }
+#ifdef SOCK_NONBLOCK
+  if (type & SOCK_NONBLOCK) {
+    fiber_io_created_nonblocking(sock);
+  }
+#endif
 
   return sock;
 }
@@ -290,6 +305,12 @@ int socketpair(int domain, int type, int protocol, int sv[2]) {
       close(sv[1]);
       return -1;
     }
+#ifdef SOCK_NONBLOCK
+    if (type & SOCK_NONBLOCK) {
+      fiber_io_created_nonblocking(sv[0]);
+      fiber_io_created_nonblocking(sv[1]);
+    }
+#endif
   }
 
   return ret;
